@@ -37,7 +37,10 @@ def miri_step(cfg, tier, seed, workdir, env):
 
 
 def register(prop, TB_COMMON):
-    prop("C11", lean_props=["C11", "Tables"], extra_steps=[miri_step],
+    # second stream: emitted code with unknown-field retention (the request set of C13): retained chunks re-emitted through the
+    # unchecked writers (BytesMut and LinkedBytes, zero-copy on and off) must give the bytes of the checked writers
+    prop("C11", lean_props=["C11", "Tables"], extra_steps=[miri_step], bins=["rt", "gentool"],
+         streams=[{"name": "C11"}, {"name": "C11gen", "bin": "genrun", "pygen": "requests_C13", "drop_hazard": True}],
          trusted_base=TB_COMMON + [
              "C11: every unchecked access of binary_unsafe.rs is modelled as a guarded access (Thrift/Unsafe.lean); real out-of-bounds behaviour is observed only by the harness (exact-size windows, 0xAA guard bytes before the window and from the final index to the end of the capacity)",
              "C11: bytes::BytesMut::{advance_mut, split, capacity}, linkedbytes 0.1.8 LinkedBytes::insert are modelled (spare capacity conserved by split), compared through node lengths / index / zero_copy_len on every request",
